@@ -47,7 +47,7 @@ inductive CPc
   deriving DecidableEq, Repr, Inhabited
 
 inductive Pc
-  | none | start | finished
+  | start | finished
   -- worker (thread_pool.cpp: ThreadPool::worker)
   | wLock          -- unique_lock lock(mutex_)
   | wLoadTerm1     -- if (!terminate_ && jobs_.empty())
@@ -102,6 +102,8 @@ structure State where
   wJ : List Nat := []
   wF : List Nat := []
   nextId : Nat := 0
+  /-- threads 1..spawned have been created (a thread at `start` may run once it is created) -/
+  spawned : Nat := 0
   thr : List Thread
   started : List Nat := []
   finished : List Nat := []
@@ -109,8 +111,8 @@ structure State where
 
 def init (cfg : Cfg) : State :=
   { thr := [{ role := .main, pc := .start }]
-        ++ (List.replicate cfg.nworkers { role := .worker, pc := .none })
-        ++ ((List.range cfg.clients.length).map fun i => { role := .client i, pc := .none }) }
+        ++ (List.replicate cfg.nworkers { role := .worker, pc := .start })
+        ++ ((List.range cfg.clients.length).map fun i => { role := .client i, pc := .start }) }
 
 def nclients (cfg : Cfg) : Nat := cfg.clients.length
 def workerTid (i : Nat) : Nat := i + 1
@@ -125,7 +127,7 @@ def script (cfg : Cfg) (th : Thread) : List Act :=
     | some j => cfg.prog j.code
     | none => []
 
-def pcOf (s : State) (t : Nat) : Pc := (s.thr[t]?.map (·.pc)).getD .none
+def pcOf (s : State) (t : Nat) : Pc := (s.thr[t]?.map (·.pc)).getD .finished
 
 def setPc (s : State) (t : Nat) (pc : Pc) : State :=
   { s with thr := s.thr.modify t fun th => { th with pc := pc } }
@@ -149,7 +151,8 @@ def enabled (cfg : Cfg) (s : State) (t : Nat) : Bool :=
   | none => false
   | some th =>
     match th.pc with
-    | .none | .finished => false
+    | .finished => false
+    | .start => t ≤ s.spawned
     | .wLock | .wRelock | .mDLock | .call _ .lock => s.owner.isNone
     | .wWaiting => s.owner.isNone && !s.wJ.contains t
     | .call _ .waiting => s.owner.isNone && !s.wF.contains t
@@ -169,7 +172,7 @@ def spurCand (s : State) (t : Nat) : Bool :=
 def unfinished (s : State) (t : Nat) : Bool :=
   match s.thr[t]? with
   | none => false
-  | some th => th.pc != .none && th.pc != .finished
+  | some th => t ≤ s.spawned && th.pc != .finished
 
 /-! ### thread-local continuations (no synchronisation operation) -/
 
@@ -228,8 +231,9 @@ def step (cfg : Cfg) (s : State) (t : Nat) (c : Nat) : Option (StepOut State) :=
   | none => none
   | some th =>
   match th.pc with
-  | .none | .finished => none
+  | .finished => none
   | .start =>
+    if t > s.spawned then none else
     match th.role with
     | .main => out (setThr s t { th with pc := .mCtor 0 }) [ev t "start"]
     | .worker => out (setThr s t { th with pc := .wLock }) [ev t "start"]   -- init_thread_ is empty
@@ -238,12 +242,12 @@ def step (cfg : Cfg) (s : State) (t : Nat) (c : Nat) : Option (StepOut State) :=
       out s' (ev t "start" :: evs)
   -- ------------------------------------------------------------ main
   | .mCtor i =>
-    let s1 := setPc s (workerTid i) .start
+    let s1 := { s with spawned := workerTid i }
     let (pc, evs) := if i + 1 < cfg.nworkers then (Pc.mCtor (i + 1), [])
                      else if nclients cfg = 0 then mainScriptBegin cfg t else (Pc.mSpawn 0, [])
     out (setThr s1 t { th with pc := pc }) (ev t s!"spawn({workerTid i})" :: evs)
   | .mSpawn i =>
-    let s1 := setPc s (clientTid cfg i) .start
+    let s1 := { s with spawned := clientTid cfg i }
     let (pc, evs) := if i + 1 < nclients cfg then (Pc.mSpawn (i + 1), []) else mainScriptBegin cfg t
     out (setThr s1 t { th with pc := pc }) (ev t s!"spawn({clientTid cfg i})" :: evs)
   | .mJoinC i =>
